@@ -119,7 +119,10 @@ class LP:
             neg = True
         node = self.term()
         if neg:
-            node = ("neg", node)
+            if node[0] == "call" and node[1] == ("name", "Mod") and len(node) == 4:   # (not a bracketed one)
+                node = ("call", ("name", "Mod"), [("neg", node[2][0]), node[2][1]])   # `- a \bmod b` is (-a) mod b
+            else:
+                node = ("neg", node)
         while True:
             if self.at("+"):
                 self.eat("+")
@@ -180,6 +183,18 @@ class LP:
             else:
                 f = self.factor()
             node = f if node is None else ("mul", node, f)
+            self.ws()
+            while self.at("\\bmod"):
+                # `a b \bmod c`: the product so far modulo the product that follows (mod binds looser than juxtaposition)
+                self.eat("\\bmod")
+                rhs = None
+                while not self.term_end() and not self.at("\\bmod"):
+                    g = self.factor()
+                    rhs = g if rhs is None else ("mul", rhs, g)
+                    self.ws()
+                if rhs is None:
+                    raise ParseError("empty right operand of bmod")
+                node = ("call", ("name", "Mod"), [node[:3] if len(node) == 4 and node[0] == "call" else node, rhs], "bare")   # chained: ((a mod b) mod c)
         if node is None:
             raise ParseError(f"empty term at {self.i}: {self.s[self.i:self.i+20]!r}")
         return node
@@ -220,12 +235,19 @@ class LP:
             close = ")"
         else:
             raise ParseError(f"expected ( at {self.i}: {self.s[self.i:self.i+20]!r}")
-        items = [self.expr()]
+        items = [self.unbare(self.expr())]
         while self.at(","):
             self.eat(",")
-            items.append(self.expr())
+            items.append(self.unbare(self.expr()))
         self.eat(close)
         return items
+
+    @staticmethod
+    def unbare(node):
+        """a `\\bmod` expression inside brackets is a closed unit"""
+        if isinstance(node, tuple) and len(node) == 4 and node[0] == "call" and node[3] == "bare":
+            return node[:3]
+        return node
 
     def funcarg(self):
         """argument of a named function: {\\left(..\\right)} | \\left(..\\right) | {x}"""
